@@ -85,6 +85,14 @@ Proof.
   - apply lookup_filter_keep. intros e Ek. unfold has_key. rewrite Ek, Eo. reflexivity.
 Qed.
 
+Lemma page_describes_merge : forall k h p e, lookup k h = Some e -> is_ref e = true -> page_describes k p = true ->
+  exists e', lookup k (page_dict p) = Some e' /\ lookup k (merge h p) = Some e' /\ is_ref e' = false.
+Proof.
+  intros k h p e Hl Hr Hd. unfold page_describes in Hd. rewrite merge_spec, Hl, Hr.
+  destruct (lookup k (page_dict p)) as [d|]; [|discriminate].
+  exists d. split; [reflexivity|]. split; [reflexivity|]. destruct (is_ref d); [discriminate | reflexivity].
+Qed.
+
 Lemma in_merge : forall e h p, In e (merge h p) -> In e h \/ In e p.
 Proof.
   intros e h p H. unfold merge in H. apply in_app_or in H. destruct H as [H | H].
